@@ -188,8 +188,36 @@ def law_unloc(ctx, rng):
         ctx.sample({"input_order": [names[i] for i in idx][:12], "sorted": [s.name for s in smart][:12]})
 
 
+def law_unloc_prefix_names(ctx, rng):
+    """Known finding D10: a named chromosome whose name is another one's name followed by
+    digits (X and X1).  Expected by the statement: X, X_unloc_1, X1 ..."""
+    prefix = rng.choice(["SUPER_", "CHR"])
+    base = rng.choice(["X", "W", "B", "Z"])
+    ext = base + str(rng.choice([1, 2, 10]))
+    exp = [f"{prefix}{base}"] + [f"{prefix}{base}_unloc_{k}" for k in range(1, rng.randint(1, 3) + 1)] + [f"{prefix}{ext}"]
+    if rng.random() < 0.5:
+        exp.append(f"{prefix}{ext}_unloc_1")
+    idx = list(range(len(exp)))
+    rng.shuffle(idx)
+    ctx.case()
+    ctx.nontrivial(sorted(exp))
+    _, smart = sort_names([exp[i] for i in idx], [2] * len(exp))
+    got = [s.name for s in smart]
+    ctx.count("law:unloc-prefix-names")
+    if got != exp:
+        k = next(i for i in range(len(exp)) if got[i] != exp[i])
+        intruder = got[k]
+        shape = re.fullmatch(re.escape(prefix + base) + r"\d+(_unloc_\d+)?", intruder) is not None and "_unloc_" in exp[k]
+        sig = "unloc-after-chromosome-whose-name-prefixes-another" if shape else "unloc-not-directly-after-its-chromosome"
+        ctx.violation(sig, f"expected {exp}\n     got {got}", {"kind": "names", "names": [exp[i] for i in idx], "ranks": [2] * len(exp)})
+
+
 def run(shard, ctx):
     attach(ctx)
+    if shard.get("kind") == "prefix-names":
+        for i in range(shard["n"]):
+            law_unloc_prefix_names(ctx, rng_for(shard["seed"], "c20p", shard["index"], i))
+        return
     for i in range(shard["n"]):
         rng = rng_for(shard["seed"], "c20", shard["index"], i)
         k = i % 8
@@ -215,7 +243,7 @@ def replay(case, ctx):
 
 def plan(tier, seed):
     n, per = (16, 2500) if tier == "quick" else (16, 40000)
-    return [{"kind": "names", "n": per, "perms": 6 if tier == "quick" else 20} for _ in range(n)]
+    return [{"kind": "names", "n": per, "perms": 6 if tier == "quick" else 20} for _ in range(n)] + [{"kind": "prefix-names", "n": 200 if tier == "quick" else 5000}]
 
 
 def gates(c, tier):
